@@ -34,6 +34,13 @@ func (c09) Rule() string {
 
 func (c09) Gen(r *sim.RNG, tier string, idx int) *Scenario {
 	sc := &Scenario{Prop: "C09"}
+	if idx < gen.ChainCount {
+		sc.World = gen.Chain(idx)
+		sc.Note = fmt.Sprintf("systematic element chain %d", idx)
+		sc.Opts = Opts{Skip: true, Absolute: r.Bool(0.3)}
+		sc.OrderKeys = OrderKeysFor(r.Uint64(), 2)
+		return sc
+	}
 	cfg := gen.DrawCfg(r)
 	cfg.IllFounded = false
 	cfg.IDs = 0
